@@ -4,6 +4,9 @@
  *   init <t>
  *   load <t> <flags> bind=<0|1> synthetic <description...>
  *   load <t> <flags> bind=<0|1> xml <path>
+ *   load <t> <flags> bind=<0|1> xmlbuf <path>     (hwloc_topology_set_xmlbuffer of the file's bytes)
+ *   blacklist <t> <component>                       hwloc_topology_set_components(BLACKLIST) before load
+ *   exportfile <t> <path>                           hwloc_topology_export_xml to a file (document factory for the generators)
  *   mod <t> restrict <cpuset> | insertmisc | insertgroup | allow | distadd <typename> <n> | distremove
  *              | maregister | maset <a> <numa-logical-index> | refresh
  *   cons <t> traverse|typeprint|distget|distrelease|mameta|maget <q> <a>|localnodes|cpukinds|sets|bitmap|exportxml|exportsynth
@@ -12,6 +15,8 @@
  *   env <NAME> [<VALUE>]  setenv / unsetenv (e.g. HWLOC_SYNTHETIC_VERBOSE)
  *   threads <T>           start of a concurrent section: the next lines are
  *   prog <i> <command>    appended to thread i's program (any command above)
+ *   prog <i> barrier      all T threads meet here (every program must contain the same number of them); orders the
+ *                         histories only, each thread keeps using its own topologies; a no-op in sequential re-runs
  *   run                   run the T programs concurrently, then print per-thread digests and the
  *                         digests of a sequential re-run of the same programs ("ref")
  * Sequential commands print  "S <n> <cmd> rc=<0|1> <oracle fields> nd=<#dist> dv=<valid bits> mv=<valid bits> chg=<0|1>"
@@ -37,7 +42,16 @@
 #define MAXPROG 256
 
 static hwloc_topology_t topos[MAXT];
+static int loaded[MAXT];          /* slot holds a successfully loaded topology */
+static int in_threads;            /* inside a concurrent section */
+static pthread_barrier_t opbarrier;
 static unsigned long value_counter[MAXT];
+
+static const char *hwv_errno_name(int e)
+{
+  switch (e) { case 0: return "0"; case EINVAL: return "EINVAL"; case ENOMEM: return "ENOMEM"; case ENOSYS: return "ENOSYS"; case ENOENT: return "ENOENT";
+  case EBUSY: return "EBUSY"; case EPERM: return "EPERM"; case EXDEV: return "EXDEV"; default: return "EOTHER"; }
+}
 
 /* ---------------- digests ---------------- */
 static uint64_t fnv(uint64_t h, const void *p, size_t n) { const unsigned char *c = p; size_t i; for (i = 0; i < n; i++) { h ^= c[i]; h *= 0x100000001b3ull; } return h; }
@@ -302,33 +316,51 @@ static void run_cmd(char *cmd, struct outcome *out, int verbose)
 {
   char kind[32]; unsigned ti; int off = 0; hwloc_topology_t t;
   out->rc = 0; out->digest = FNV0; out->oracle[0] = 0;
+  if (!strncmp(cmd, "barrier", 7)) { if (in_threads) pthread_barrier_wait(&opbarrier); out->rc = 1; return; }
   if (sscanf(cmd, "%31s %u %n", kind, &ti, &off) < 2 || ti >= MAXT) { out->rc = -2; return; }
   cmd += off;
   if (!strcmp(kind, "init")) {
     if (topos[ti]) return;
-    out->rc = hwloc_topology_init(&topos[ti]) == 0; value_counter[ti] = 100 * (ti + 1);
+    out->rc = hwloc_topology_init(&topos[ti]) == 0; value_counter[ti] = 100 * (ti + 1); loaded[ti] = 0;
     return;
   }
   t = topos[ti];
   if (!t) return;
+  if (!strcmp(kind, "blacklist")) { errno = 0; out->rc = hwloc_topology_set_components(t, HWLOC_TOPOLOGY_COMPONENTS_FLAG_BLACKLIST, cmd) == 0; out->digest = fnv_str(FNV0, hwv_errno_name(out->rc ? 0 : errno)); return; }
+  if (!strcmp(kind, "exportfile")) { out->rc = hwloc_topology_export_xml(t, cmd, 0) == 0; return; }
   if (!strcmp(kind, "filterall")) { out->rc = hwloc_topology_set_all_types_filter(t, HWLOC_TYPE_FILTER_KEEP_ALL) == 0; return; }
-  if (!strcmp(kind, "destroy")) { hwloc_topology_destroy(t); topos[ti] = NULL; out->rc = 1; return; }
+  if (!strcmp(kind, "destroy")) { hwloc_topology_destroy(t); topos[ti] = NULL; loaded[ti] = 0; out->rc = 1; return; }
+  if ((!strcmp(kind, "mod") || !strcmp(kind, "cons") || !strcmp(kind, "exportfile")) && !loaded[ti]) { out->rc = 0; out->digest = fnv_str(FNV0, "not-loaded"); return; }
+  if (!strcmp(kind, "load") && loaded[ti]) { out->rc = 0; out->digest = fnv_str(FNV0, "already-loaded"); return; }
   if (!strcmp(kind, "load")) {
     unsigned long flags = 0; int bind = 0, o2 = 0; char src[16]; int rc; cpu_set_t saved; int have_saved = 0;
     if (sscanf(cmd, "%lu bind=%d %15s %n", &flags, &bind, src, &o2) < 3) { out->rc = -2; return; }
     cmd += o2;
     if (hwloc_topology_set_flags(t, flags) < 0) { out->rc = 0; return; }
+    errno = 0;
     if (!strcmp(src, "synthetic")) rc = hwloc_topology_set_synthetic(t, cmd);
+    else if (!strcmp(src, "xmlbuf")) {
+      FILE *f = fopen(cmd, "rb"); long len; char *buf;
+      if (!f) { out->rc = -2; return; }
+      fseek(f, 0, SEEK_END); len = ftell(f); fseek(f, 0, SEEK_SET);
+      buf = malloc((size_t)len + 1);
+      if (fread(buf, 1, (size_t)len, f) != (size_t)len) { fclose(f); free(buf); out->rc = -2; return; }
+      buf[len] = 0; fclose(f);
+      rc = hwloc_topology_set_xmlbuffer(t, buf, (int)len + 1);
+      free(buf);   /* the backend keeps its own copy / parsed tree */
+    }
     else rc = hwloc_topology_set_xml(t, cmd);
-    if (rc < 0) { out->rc = 0; return; }
+    if (rc < 0) { out->rc = 0; out->digest = fnv_str(fnv_str(FNV0, "set-source-failed"), hwv_errno_name(errno)); if (verbose) printf(" seterr=%s", hwv_errno_name(errno)); return; }
+    errno = 0;
     if (bind) { have_saved = sched_getaffinity(0, sizeof(saved), &saved) == 0; bind_first_allowed_cpu(); }
     rc = hwloc_topology_load(t);
     if (bind && have_saved) sched_setaffinity(0, sizeof(saved), &saved);
-    out->rc = rc == 0;
+    out->rc = rc == 0; loaded[ti] = rc == 0;
+    if (rc < 0) { out->digest = fnv_str(fnv_str(FNV0, "load-failed"), hwv_errno_name(errno)); if (verbose) printf(" loaderr=%s", hwv_errno_name(errno)); }
     if (verbose && rc == 0) {
       unsigned long f = hwloc_topology_get_flags(t);
       printf(" nodist=%d nomemattr=%d nocpukinds=%d xml=%d nma=%u npu=%d", !!(f & HWLOC_TOPOLOGY_FLAG_NO_DISTANCES), !!(f & HWLOC_TOPOLOGY_FLAG_NO_MEMATTRS),
-             !!(f & HWLOC_TOPOLOGY_FLAG_NO_CPUKINDS), !strcmp(src, "xml"), t->nr_memattrs, hwloc_get_nbobjs_by_type(t, HWLOC_OBJ_PU));
+             !!(f & HWLOC_TOPOLOGY_FLAG_NO_CPUKINDS), !strncmp(src, "xml", 3), t->nr_memattrs, hwloc_get_nbobjs_by_type(t, HWLOC_OBJ_PU));
       print_dists_nb(t);
       printf(" restricted=%d", bind && hwloc_get_nbobjs_by_type(t, HWLOC_OBJ_PU) == 1);
     }
@@ -407,16 +439,19 @@ static void run_cmd(char *cmd, struct outcome *out, int verbose)
 /* ---------------- threads ---------------- */
 static char *progs[MAXTH][MAXPROG]; static unsigned proglen[MAXTH]; static unsigned nthreads;
 static uint64_t tdigest[MAXTH]; static int tbad[MAXTH];
+static uint32_t topd[MAXTH][MAXPROG];   /* per-call (rc, digest) hashes of the concurrent run, to locate the first differing call */
 static pthread_barrier_t barrier;
 
-static uint64_t run_program(unsigned i, int *bad)
+static uint64_t run_program(unsigned i, int *bad, uint32_t *perop)
 {
   uint64_t h = FNV0; unsigned k;
   for (k = 0; k < proglen[i]; k++) {
-    struct outcome oc; char *copy = strdup(progs[i][k]);
+    struct outcome oc; char *copy = strdup(progs[i][k]); uint64_t o;
     run_cmd(copy, &oc, 0); free(copy);
     if (oc.rc == -2) *bad = 1;
     h = fnv_u64(h, (uint64_t)oc.rc); h = fnv_u64(h, oc.digest);
+    o = fnv_u64(fnv_u64(FNV0, (uint64_t)oc.rc), oc.digest);
+    if (perop) perop[k] = (uint32_t)(o ^ (o >> 32)) & 0xfffffff0u | (uint32_t)(oc.rc & 0xf);
   }
   return h;
 }
@@ -425,7 +460,7 @@ static void *thread_main(void *arg)
 {
   unsigned i = (unsigned)(uintptr_t)arg;
   pthread_barrier_wait(&barrier);
-  tdigest[i] = run_program(i, &tbad[i]);
+  tdigest[i] = run_program(i, &tbad[i], topd[i]);
   return NULL;
 }
 
@@ -456,16 +491,18 @@ int main(void)
     if (!strcmp(line, "run") || !strcmp(line, "run noref")) {
       pthread_t th[MAXTH]; uint64_t before[MAXT], after[MAXT]; unsigned k; int chg = 0, noref = !strcmp(line, "run noref");
       for (k = 0; k < MAXT; k++) before[k] = topos[k] ? cache_digest(topos[k]) : 0;
-      pthread_barrier_init(&barrier, NULL, nthreads);
+      pthread_barrier_init(&barrier, NULL, nthreads); pthread_barrier_init(&opbarrier, NULL, nthreads); in_threads = 1;
       for (i = 0; i < nthreads; i++) pthread_create(&th[i], NULL, thread_main, (void *)(uintptr_t)i);
       for (i = 0; i < nthreads; i++) pthread_join(th[i], NULL);
-      pthread_barrier_destroy(&barrier);
+      pthread_barrier_destroy(&barrier); pthread_barrier_destroy(&opbarrier); in_threads = 0;
       for (k = 0; k < MAXT; k++) { after[k] = topos[k] ? cache_digest(topos[k]) : 0; if (after[k] != before[k]) chg = 1; }
       printf("R %u threads=%u cache_chg=%d\n", lineno, nthreads, chg);
       for (i = 0; i < nthreads; i++) {
         /* the sequential reference: the same program run alone, afterwards, by the main thread */
-        int bad = 0; uint64_t ref = noref ? tdigest[i] : run_program(i, &bad);
-        printf("T %u digest=%016llx ref=%016llx eq=%d bad=%d\n", i, (unsigned long long)tdigest[i], (unsigned long long)ref, tdigest[i] == ref, bad | tbad[i]);
+        int bad = 0; uint64_t ref = noref ? tdigest[i] : run_program(i, &bad, NULL); unsigned q;
+        printf("T %u digest=%016llx ref=%016llx eq=%d bad=%d ops=", i, (unsigned long long)tdigest[i], (unsigned long long)ref, tdigest[i] == ref, bad | tbad[i]);
+        for (q = 0; q < proglen[i]; q++) printf("%s%08x", q ? "," : "", topd[i][q]);
+        printf("\n");
       }
       continue;
     }
